@@ -111,7 +111,7 @@ def run(ctx):
     rng = ctx.rng
     ngram = 40 if not thorough else 500
     ninp = 150 if not thorough else 400
-    grammars = [lexgen.gen_lex_grammar(rng, safe_regdefs=True, nullable_bodies=(rng.random() < 0.4)) for _ in range(ngram)]
+    grammars = [lexgen.gen_lex_grammar(rng, safe_regdefs=(rng.random() < 0.4), nullable_bodies=(rng.random() < 0.4)) for _ in range(ngram)]
     recs, stats, ws = lexcommon.prepare_lexers(ctx, grammars)
     total = disagreements = reported = 0
     distinct = set()
@@ -162,7 +162,7 @@ def run(ctx):
         res, err = kernel_check(kernel_batch)
         for n, _ in kernel_batch:
             ctx.add_obligation("R: bisim_check(emitted DFA of %s, lexical rules) = true by vm_compute (Coq kernel)" % n, res.get(n, False), err)
-    # known findings: regular definitions are not macros in gocc (unrepaired defect D4)
+    # regression: regular definitions are macros (defect D4, repaired)
     known = {f["id"]: f for f in ctx.known_findings()}
     for (wid, text, src) in D4_WITNESSES:
         d = ctx.mktemp("d4")
@@ -185,14 +185,13 @@ def run(ctx):
             reported += 1
     ctx.write_evidence("proof", {
         "evaluations": total, "distinct_nontrivial": len(distinct),
-        "rule": "random lexical grammars (tokens, ignored tokens, single-rune regular definitions, optional/repeated/grouped patterns to depth "
+        "rule": "random lexical grammars (tokens, ignored tokens, single- and multi-character regular definitions (nested), optional/repeated/grouped patterns to depth "
                 "3 incl. nullable bodies, ranges over the whole Unicode range, '.', syntax-part string literals colliding with named tokens) x "
                 "inputs (walks through the DFA, random over the alphabet, malformed UTF-8); non-trivial = input longer than 3 bytes; distinct "
                 "by (grammar, input)",
         "samples": samples, "programs": len(recs), "bisim_verdicts": dict(hist),
         "traces_validated_against_impl": total, "disagreements": disagreements,
         "gocc_stats": {k: v for k, v in stats.items() if k != "build_log"},
-    }, ["multi-character regular definitions are a recorded finding (gocc does not treat them as macros): the random stream keeps to "
-        "single-character definitions, the three witnesses run on every check",
+    }, ["the three witnesses of the repaired regular-definition defect (D4) run on every check as regression cases",
         "imports (external rune predicates) are unreachable from the grammar and outside the model",
         "the derivative tokenizer and the checker are extracted (ExtrOcamlBasic); a sample of the obligations is re-evaluated by the kernel"])
